@@ -12,7 +12,7 @@ import re
 
 from .. import facts, expr as X
 from ..facts import walk
-from ..report import Check
+from ..report import Check, canon
 from ..cap import Cap
 from ..capcheck import run_cap
 from ..models import PURE_LIBC
@@ -33,6 +33,7 @@ def run(tier="quick"):
                             "global-reference and callee inspection")
     chk.rule("B1", "scratch-buffer writes bounded, cursors inside the inputs, buffers read only after being terminated")
     chk.rule("P1", "every loop makes progress")
+    chk.rule("X1", "numeric components are not ordered through a wrapping difference / narrowed conversion")
     chk.rule("E1", "no global state, only pure callees")
     prog = facts.extract(only=["strings.c"])
     f = prog.need("spiftool_version_compare")
@@ -60,6 +61,45 @@ def run(tier="quick"):
         if o.kind == "unterminated" and not o.ok:
             chk.ob("B1", f.name, "read-before-write:" + X.render(o.node)[:30], False, loc=f.loc(o.node),
                    detail="%s reads a scratch buffer as a string on a path where nothing terminated it: the result depends on stack contents" % f.name)
+    # X1 numeric runs are ordered numerically for every length: the sign idiom must not be applied to a difference of two values
+    # obtained from an unbounded conversion (strtol, atoi ...), and such a value must not be narrowed first - both wrap for
+    # components >= 2^31 and the order of the versions comes out wrong
+    from . import C05 as _C05
+    nx = 0
+    conv = ("strtol", "strtoul", "atoi", "atol", "strtoll", "strtoull")
+
+    def conv_defs(d):
+        out = []
+        for x in walk(f.body):
+            rhs = None
+            if x.get("k") == "assign" and x.get("op") == "=" and X.strip(x["ch"][0]).get("d") == d:
+                rhs = x["ch"][1]
+            if x.get("k") == "decl":
+                for dcl in x.get("decls", ()):
+                    if dcl["d"] == d and dcl.get("init") is not None:
+                        rhs = dcl["init"]
+            if rhs is not None and any(X.callee_name(c) in conv for c in X.calls_in(rhs)):
+                out.append((x, rhs))
+        return out
+    for x in walk(f.body):
+        si = _C05.sign_idiom(x)
+        if si is None:
+            continue
+        op = X.strip(si[0])
+        if op.get("k") == "bin" and op.get("op") == "-":
+            a, b = X.strip(op["ch"][0]), X.strip(op["ch"][1])
+            if a.get("k") == "ref" and b.get("k") == "ref":
+                da, db = conv_defs(a["d"]), conv_defs(b["d"])
+                if da or db:
+                    nx += 1
+                    narrowed = any((X.strip(r, keep_int_casts=True).get("tw") or 64) < 64 for _, r in da + db)
+                    chk.ob("X1", f.name, "numeric-order-by-difference:" + canon(f, op)[:30], False, loc=f.loc(x),
+                           detail="%s orders two numeric components by the sign of %s, where the operands are unbounded conversions of "
+                                  "the digit runs%s: for components >= 2^31 the value or the difference wraps and the larger number "
+                                  "is reported smaller (e.g. 3000000000 vs 1)" % (f.name, X.render(op)[:30], " narrowed to 32 bits" if narrowed else ""))
+    if not nx:
+        chk.ob("X1", f.name, "numeric-order-by-difference", True, loc=f.loc(f.body),
+               proof="no sign test of a difference of converted digit runs")
     # purity
     fns = [f] + [prog.fn(X.callee_name(c)) for c in X.calls_in(f.body) if prog.fn(X.callee_name(c) or "") is not None]
     bad_g, bad_c = [], []
